@@ -81,10 +81,15 @@ def decorate(rnd, level):
     return ex
 
 
+SPAWN_FAILED = "org.freedesktop.DBus.Error.Spawn.ChildExited"
+
+
 class Gen:
-    def __init__(self, rnd, maxc=50):
+    def __init__(self, rnd, maxc=50, acts=()):
         self.rnd = rnd
         self.maxc = maxc
+        self.acts = [list(a) for a in acts]     # [name, "hold" | "fail"]
+        self.kept = {}                          # activatable name -> clients predicted to have a message kept
         self.events = []
         self.serial = rawbus_gen_lo()
         self.live = {}        # c -> predicted unique name or None
@@ -100,6 +105,10 @@ class Gen:
     def connect(self, c):
         self.events.append("C.%d" % c)
         self.live[c] = None
+
+    def act_fail(self, name):
+        self.events.append("A.%s.%s" % (name.encode().hex(), SPAWN_FAILED.encode().hex()))
+        self.kept.pop(name, None)
 
     def disconnect(self, c):
         self.events.append("D.%d" % c)
@@ -125,6 +134,12 @@ class Gen:
         self.send(c, raw)
         # prediction only
         dest = fl.get(F_DESTINATION)
+        kinds = dict(self.acts)
+        if self.live.get(c) and dest in kinds and dest not in self.wk and not (flags & 2):
+            if kinds[dest] == "fail":
+                self.act_fail(dest)             # the failure is reported right away: pair it with the message
+            else:
+                self.kept.setdefault(dest, []).append(c)
         if self.live.get(c, 0) is None:
             if dest == BUS or (dest is None and (mtype != SIGNAL or fl.get(F_INTERFACE) == PEER)):
                 pass
@@ -168,10 +183,13 @@ class Gen:
         self.driver_call(c, "RequestName", "su", (name, flags), level=level)
         if self.live.get(c) and not name.startswith(":") and name not in self.wk:
             self.wk[name] = c
+            self.kept.pop(name, None)
 
     def pick_dest(self, c):
         rnd = self.rnd
         names = [n for k, n in self.live.items() if n and k not in self.monitors]
+        if self.acts and rnd.random() < 0.22:
+            return rnd.choice(self.acts)[0]
         r = rnd.random()
         if r < 0.55 and names:
             return rnd.choice(names)
@@ -219,9 +237,13 @@ def rawbus_gen_lo():
     return 100000
 
 
+ACTS = (("t.A1", "hold"), ("t.A2", "hold"), ("t.F1", "fail"))
+
+
 def gen_history(rnd, length):
     maxc = rnd.choice((50, 50, 50, 3, 4, 2))
-    g = Gen(rnd, maxc)
+    acts = ACTS if rnd.random() < 0.55 else ()
+    g = Gen(rnd, maxc, acts)
     monitor = rnd.random() < 0.45
     g.prefix(monitor)
     next_id = 2
@@ -247,7 +269,11 @@ def gen_history(rnd, length):
         elif r < 0.32:
             g.hello(c, variant=rnd.choice((0, 0, 0, 1, 2, 3, 4, 5, 6)), level=rnd.choice((0, 1)))
         elif r < 0.38:
-            g.request_name(c, rnd.choice(["t.N1", "t.N2", ":1.%d" % (g.minted + rnd.randrange(3)), ":1.0", ":2.0"]), rnd.choice((0, 0, 4)), level=rnd.choice((0, 1)))
+            if g.acts and (rnd.random() < 0.5 or any(g.kept.values())):
+                kept = [n for n, cs in g.kept.items() if cs]
+                g.request_name(c, rnd.choice(kept or ["t.A1", "t.A2"]), 4, level=rnd.choice((0, 1)))
+            else:
+                g.request_name(c, rnd.choice(["t.N1", "t.N2", ":1.%d" % (g.minted + rnd.randrange(3)), ":1.0", ":2.0"]), rnd.choice((0, 0, 4)), level=rnd.choice((0, 1)))
         elif r < 0.42:
             g.add_match(c, rnd.choice([OBS_RULE, "type='signal',interface='t.I'", "eavesdrop='true'", "sender='%s'" % BUS]))
         elif r < 0.45:
@@ -256,7 +282,7 @@ def gen_history(rnd, length):
             g.driver_call(c, "GetNameOwner", "s", (rnd.choice([":1.0", ":1.%d" % rnd.randrange(g.minted + 1), BUS]),), level=1)
         else:
             g.random_message(c, level=rnd.choice((1, 1, 1, 0)))
-    return maxc, g.events
+    return maxc, g.events, [list(a) for a in acts]
 
 
 def scenarios():
@@ -264,11 +290,11 @@ def scenarios():
     import random
     out = []
 
-    def mk(name, fn, maxc=50, monitor=False):
-        g = Gen(random.Random(name), maxc)
+    def mk(name, fn, maxc=50, monitor=False, acts=()):
+        g = Gen(random.Random(name), maxc, acts)
         g.prefix(monitor)
         fn(g)
-        out.append((name, maxc, g.events))
+        out.append((name, maxc, g.events, [list(a) for a in acts]))
 
     def call(dest):
         f = {F_PATH: "/t/p", F_INTERFACE: "t.I", F_MEMBER: "M"}
@@ -372,4 +398,49 @@ def scenarios():
         g.request_name(3, ":1.3")
     mk("spoof", spoof)
     mk("spoof-monitor", spoof, monitor=True)
+
+    def hold(g):
+        # messages for a service that is being started are kept; the writers' fates differ before the
+        # name is finally claimed: one stays, one leaves, one leaves and its id is taken by a new client
+        for c in (2, 3, 4, 5):
+            g.connect(c)
+            g.hello(c)
+        g.add_match(5, "eavesdrop='true'")
+        for le in (True, False):
+            for c in (2, 3, 4):
+                g.send(c, build(le, rnd_type(c), 0, g.next_serial(), call("t.A1") if rnd_type(c) != METHOD_RETURN else {F_REPLY_SERIAL: 9, F_DESTINATION: "t.A1"}, "s", ("kept",),
+                                extra=[(0, F_SENDER, Variant("s", ":1.0")), (2, 200, Variant("u", 1)), (1, F_CONTAINER, Variant("o", "/c"))]))
+        g.send(2, build(True, METHOD_CALL, 2, g.next_serial(), call("t.A1")))          # NO_AUTO_START: not kept
+        g.send(2, build(True, SIGNAL, 0, g.next_serial(), call("t.A2"), extra=[(0, F_SENDER, Variant("s", BUS))]))
+        g.disconnect(3)
+        g.disconnect(4)
+        g.connect(4)
+        g.hello(4)
+        g.request_name(5, ":1.2", 4)
+        g.request_name(5, "t.A1", 4)
+        g.request_name(5, "t.A1", 4)
+        g.disconnect(2)
+        g.request_name(4, "t.A2", 4)
+        g.send(4, build(True, METHOD_CALL, 0, g.next_serial(), call("t.A1")))
+        g.disconnect(5)
+        g.send(4, build(True, METHOD_CALL, 0, g.next_serial(), call("t.A1")))
+        g.request_name(4, "t.A1", 4)
+
+    def rnd_type(c):
+        return {2: METHOD_CALL, 3: SIGNAL, 4: METHOD_RETURN}[c]
+    mk("hold-release", hold, acts=ACTS)
+    mk("hold-release-monitor", hold, monitor=True, acts=ACTS)
+
+    def fail(g):
+        for c in (2, 3):
+            g.connect(c)
+            g.hello(c)
+        g.send(2, build(True, METHOD_CALL, 0, g.next_serial(), call("t.F1"), extra=[(0, F_SENDER, Variant("s", ":1.2"))]))
+        g.act_fail("t.F1")
+        g.send(3, build(False, SIGNAL, 0, g.next_serial(), call("t.F1"), extra=[(1, 255, Variant("s", "x"))]))
+        g.act_fail("t.F1")
+        g.send(3, build(True, METHOD_CALL, 1, g.next_serial(), call("t.F1")))
+        g.act_fail("t.F1")
+    mk("start-fails", fail, acts=ACTS)
+    mk("start-fails-monitor", fail, monitor=True, acts=ACTS)
     return out
